@@ -129,7 +129,22 @@ var recordTypes = map[string]func() codec.ProtoMarshaler{
 
 // NewWorld builds a real app over MemDB, injects the case's pre-state through the real stores and codec,
 // funds the accounts through the real bank keeper and returns the real keepers / message servers.
-func NewWorld() *World {
+func NewWorld() *World { return newNativeWorld(true) }
+
+// NewEmptyTwin: a freshly initialised second chain (no pre-state injected) with the same header.
+func NewEmptyTwin(w *World) *World {
+	t := newNativeWorld(false)
+	t.Ctx = t.Ctx.WithBlockHeader(w.Ctx.BlockHeader())
+	return t
+}
+
+var twinHeader struct {
+	h       int64
+	apphash []byte
+	bt      int64
+}
+
+func newNativeWorld(inject bool) *World {
 	if !configured {
 		cfg := sdk.GetConfig()
 		cfg.SetBech32PrefixForAccount(app.AccountAddressPrefix, app.AccountAddressPrefix+"pub")
@@ -151,9 +166,12 @@ func NewWorld() *World {
 	enc := cosmoscmd.MakeEncodingConfig(app.ModuleBasics)
 	a := app.New(log.NewNopLogger(), dbm.NewMemDB(), nil, true, map[int64]bool{}, "", 0, enc, simapp.EmptyAppOptions{}).(*app.App)
 
-	h := sym.Int64("height")
-	apphash := []byte(sym.String("apphash"))
-	hdr := tmproto.Header{Height: h, Time: sym.Time(sym.Int64("blocktime")), AppHash: apphash, ChainID: ChainID}
+	if inject {
+		twinHeader.h = sym.Int64("height")
+		twinHeader.apphash = []byte(sym.String("apphash"))
+		twinHeader.bt = sym.Int64("blocktime")
+	}
+	hdr := tmproto.Header{Height: twinHeader.h, Time: sym.Time(twinHeader.bt), AppHash: twinHeader.apphash, ChainID: ChainID}
 	ctx := a.BaseApp.NewUncachedContext(false, hdr).WithEventManager(sdk.NewEventManager())
 
 	w := &World{App: a}
@@ -172,13 +190,40 @@ func NewWorld() *World {
 	a.DidKeeper.SetParams(ctx, didtypes.DefaultParams())
 
 	c := sym.Current
-	if c != nil {
+	if c != nil && inject {
 		if p, ok := c.Params["node"]; ok {
 			func() {
 				// a parameter set the real validators reject is not a reachable configuration: keep the defaults
 				defer func() { recover() }()
 				var np nodetypes.Params
 				a.AppCodec().MustUnmarshalJSON(p, &np)
+				// fields the model left unconstrained may not parse natively: keep the model's values where
+				// the real validators accept them and the defaults elsewhere
+				def := nodetypes.DefaultParams()
+				if _, err := sdk.NewDecFromStr(np.AnnualPercentageYield); err != nil {
+					np.AnnualPercentageYield = def.AnnualPercentageYield
+				}
+				if t, err := sdk.NewDecFromStr(np.ShareThreshold); err != nil || t.LT(sdk.NewDecWithPrec(1, 2)) {
+					np.ShareThreshold = def.ShareThreshold
+				}
+				if np.HalvingPeriod <= 10 {
+					np.HalvingPeriod = def.HalvingPeriod
+				}
+				if np.AdjustmentPeriod <= 10 {
+					np.AdjustmentPeriod = def.AdjustmentPeriod
+				}
+				if np.PenaltyBase == 0 {
+					np.PenaltyBase = def.PenaltyBase
+				}
+				if np.MaxPenalty <= 10 {
+					np.MaxPenalty = def.MaxPenalty
+				}
+				if np.VstorageThreshold <= 0 {
+					np.VstorageThreshold = def.VstorageThreshold
+				}
+				if np.OfflineTriggerHeight <= 0 {
+					np.OfflineTriggerHeight = def.OfflineTriggerHeight
+				}
 				a.NodeKeeper.SetParams(ctx, np)
 			}()
 		}
@@ -210,7 +255,7 @@ func NewWorld() *World {
 					panic(fmt.Sprintf("replay: %s: %v: %s", sc.Type, err, string(sc.JSON)))
 				}
 				st.Set(key, a.AppCodec().MustMarshal(rec))
-			} else if sc.RawHex != "" {
+			} else if sc.RawHex != "" || sc.IsRaw {
 				raw, _ := hex.DecodeString(sc.RawHex)
 				st.Set(key, raw)
 			}
@@ -341,7 +386,12 @@ func (w *World) diffKeys(snap int, store, prefix string) [][]byte {
 	seen := map[string]bool{}
 	var out [][]byte
 	collect := func(a, b sdk.Context) {
-		it := sdk.KVStorePrefixIterator(a.KVStore(w.App.GetKey(store)), []byte(prefix))
+		var it sdk.Iterator
+		if prefix == "" {
+			it = a.KVStore(w.App.GetKey(store)).Iterator(nil, nil)
+		} else {
+			it = sdk.KVStorePrefixIterator(a.KVStore(w.App.GetKey(store)), []byte(prefix))
+		}
 		defer it.Close()
 		for ; it.Valid(); it.Next() {
 			k := it.Key()
